@@ -5,7 +5,15 @@ space 1 (adversarial): grammar-based fragments over the whole wikitext alphabet,
    splice / unbalance).
 space 2 (well-formed): documents of a recursive grammar of ordinary printable content (sections with body
    text, paragraphs, nested lists, small tables, styled and linked text, references), every word unique,
-   below the cleaner's size heuristics and free of the documented removal triggers."""
+   below the cleaner's size heuristics and free of the documented removal triggers.  Dimensions of the grammar:
+   body kind of a section (text / links only / list of bare links / formula only), cell content of a table (one
+   line / several blocks whose lengths vary from one word to just below the 2500-character table bound), word
+   uniqueness (all unique / one repeated fragment, so that structurally EQUAL siblings occur), preformatted blocks
+   with captioned images.
+space 3 (deep, C05 only): forbidden-nesting pairs and row-copying tables whose offending ancestor also holds a chain
+   of 41..DEEP_MAX nested html tags (deep, but parseable: the parser and the passes need 1-2 interpreter frames per
+   level, copy.deepcopy ~6) - passes then fail half-way with RecursionError and the tree must still be proper."""
+import re
 
 
 class Words:
@@ -59,6 +67,117 @@ def inline(rng, W, depth=0, allow_ref=True, named=None):
     return " ".join(parts)
 
 
+def barelink(rng, W):
+    """visible content that is NOT carried by a Text node: label-less links, bare URLs"""
+    r = rng.random()
+    if r < 0.45:
+        return "[[%s %s]]" % (W().capitalize(), W()) if rng.random() < 0.5 else "[[T%s]]" % W()
+    if r < 0.75:
+        return "http://example.com/%s" % W()
+    if r < 0.9:
+        return "[http://example.com/%s]" % W()
+    return "[[:T%s]]" % W()
+
+
+def linkbody(rng, W):
+    """a section body without any plain word: only links / a list of links / a formula"""
+    r = rng.random()
+    if r < 0.4:
+        mark = rng.choice("*#")
+        return [mark + " " + barelink(rng, W) for _ in range(rng.randint(1, 4))] + [""]
+    if r < 0.7:
+        return [" ".join(barelink(rng, W) for _ in range(rng.randint(1, 3))), ""]
+    if r < 0.8:
+        return [barelink(rng, W), "", barelink(rng, W), ""]
+    if r < 0.9:
+        return ["<math>%s</math>" % W(), ""]
+    return [": " + barelink(rng, W), ""]
+
+
+def para_of(W, nwords):
+    return " ".join(W() for _ in range(nwords))
+
+
+def cellblocks(rng, W, budget):
+    """the content of one multi-block cell: 1-4 blocks (paragraph / list) whose lengths are drawn from
+    {1-5, 10-60, 100-330} words, within `budget` characters; returns (lines, chars used)"""
+    lines = []
+    used = 0
+    for _ in range(rng.randint(1, 4)):
+        k = rng.random()
+        n = rng.randint(1, 5) if k < 0.45 else rng.randint(10, 60) if k < 0.7 else rng.randint(100, 330)
+        n = min(n, max(1, (budget - used) // 7))
+        if rng.random() < 0.8:
+            t = [para_of(W, n)]
+        else:
+            m = rng.randint(1, 4)
+            t = ["* " + para_of(W, max(1, n // m)) for _ in range(m)]
+        lines += t + [""]
+        used += sum(len(x) for x in t)
+        if used >= budget - 10:
+            break
+    return lines, used
+
+
+def bigtable(rng, W):
+    """2-4 rows x 2-3 columns, written one cell per line; one or two cells hold several blocks of widely varying
+    length.  The whole table stays below 2400 characters (the property's bound: 2500 per table, 5000 per cell)."""
+    rows, cols = rng.randint(2, 4), rng.randint(2, 3)
+    out = ["{|" + rng.choice(["", ' class="wikitable"', ' border="1"'])]
+    budget = 2300
+    multi = {(rng.randrange(rows), rng.randrange(cols)) for _ in range(rng.randint(1, 2))}
+    for r in range(rows):
+        out.append("|-")
+        for c in range(cols):
+            if (r, c) in multi:
+                ls, used = cellblocks(rng, W, budget)
+                budget -= used
+                if ls[0].startswith("*"):
+                    out.append("|")
+                    out.extend(ls)
+                else:
+                    out.append("| " + ls[0])
+                    out.extend(ls[1:])
+            else:
+                t = W.some(rng, 1, 3)
+                budget -= len(t)
+                out.append("| " + t)
+    out.append("|}")
+    return out
+
+
+def preblock(rng, W):
+    """a preformatted block (lines with a leading blank) of text, optionally with captioned images"""
+    out = []
+    for _ in range(rng.randint(1, 3)):
+        parts = [W.some(rng, 1, 4)]
+        for _i in range(rng.choice([0, 0, 1, 2])):
+            parts.append("[[File:%s.png|%s]]" % (W(), W.some(rng, 1, 2)))
+            parts.append(W.some(rng, 1, 2))
+        out.append(" " + " ".join(parts))
+    return out + [""]
+
+
+REPEATABLE = re.compile(r"\[\[File:[^\]]*\]\]|\[\[[^\]|]*\]\]|'''[^']+'''|''[^']+''|<u>[^<]*</u>|<small>[^<]*</small>")
+
+
+def repeat_fragment(rng, lines):
+    """word uniqueness is a dimension of the grammar too: repeat one inline element (after one separating word) or one
+    list item / table cell line verbatim, so that structurally EQUAL sibling nodes occur"""
+    idx = [i for i, l in enumerate(lines) if l and not l.startswith(("=", "{|", "|}", "|-", "|+", "<references"))]
+    if not idx:
+        return lines
+    i = rng.choice(idx)
+    l = lines[i]
+    m = list(REPEATABLE.finditer(l))
+    if m and rng.random() < 0.7:
+        x = rng.choice(m)
+        return lines[:i] + [l[:x.end()] + " sep%d " % i + x.group(0) + l[x.end():]] + lines[i + 1:]
+    if l[0] in "*#|!":
+        return lines[:i + 1] + [l] + lines[i + 1:]
+    return lines
+
+
 def wlist(rng, W, prefix, named):
     """a list whose items carry the marker `prefix`+kind; sublists extend the marker (proper nesting)"""
     out = []
@@ -91,20 +210,33 @@ def table(rng, W, named, rows=None, cols=None):
 
 def block(rng, W, named):
     r = rng.random()
-    if r < 0.5:
+    if r < 0.45:
         return [inline(rng, W, named=named), ""]
-    if r < 0.75:
+    if r < 0.68:
         return wlist(rng, W, "", named) + [""]
-    if r < 0.93:
+    if r < 0.82:
         return table(rng, W, named) + [""]
+    if r < 0.88:
+        return bigtable(rng, W) + [""]
+    if r < 0.92:
+        return preblock(rng, W)
+    if r < 0.95:
+        return linkbody(rng, W)
     return [": " + inline(rng, W, 1, named=named), ""]
 
 
 def section(rng, W, level, named, budget):
     out = ["=" * level + " " + W.some(rng, 1, 3) + " " + "=" * level]
-    out.extend([W.some(rng, 1, 2) + " " + inline(rng, W, named=named), ""])          # every section has body text (plain words)
-    for _ in range(rng.randint(0, 2)):
-        out.extend(block(rng, W, named))
+    if rng.random() < 0.12:
+        # the body is visible but holds no plain word (label-less links, bare URLs, a formula): such a section is not
+        # "empty" - an empty section has nothing to print
+        out.extend(linkbody(rng, W))
+        if rng.random() < 0.3:
+            out.extend(linkbody(rng, W))
+    else:
+        out.extend([W.some(rng, 1, 2) + " " + inline(rng, W, named=named), ""])          # body text (plain words)
+        for _ in range(rng.randint(0, 2)):
+            out.extend(block(rng, W, named))
     while level < 4 and budget[0] > 0 and rng.random() < 0.4:
         budget[0] -= 1
         out.extend(section(rng, W, level + 1, named, budget))
@@ -123,6 +255,8 @@ def wellformed(rng, named_refs=False):
         out.extend(section(rng, W, 2, named, budget))
     if rng.random() < 0.7:
         out.extend(["== %s ==" % W.some(rng, 1, 2), W.some(rng, 1, 3), "", "<references/>", ""])
+    if rng.random() < 0.12:
+        out = repeat_fragment(rng, out)
     return "\n".join(out)
 
 
@@ -139,10 +273,53 @@ TAGS = ["div", "span", "center", "blockquote", "pre", "code", "source", "tt", "u
         "ruby", "rb", "rt", "rp", "index", "hr", "br"]
 
 
+# every unit css knows (the style helper understands pt px em %; the others must be ignored, not crash), bare numbers,
+# keywords and garbage - for every length-valued property
+UNITS = ["px", "pt", "em", "%", "in", "cm", "mm", "ex", "pc", "rem", "vh", ""]
+NUMBERS = ["0", "1", "50", "99", "100", "101", "150", "300", "1000", "0.5", "12.5", ".5", "-20", "+5", "1e3", "00"]
+LENGTH_WORDS = ["auto", "inherit", "none", "thin", "abc", "", "%", "px", "1 px", "50 %", "calc(100% - 2px)", "0x10", "1,5em", "NaNpx"]
+LENGTH_PROPS = ["height", "width", "max-height", "min-height", "max-width", "top", "left", "margin", "margin-left", "margin-top",
+                "padding", "font-size", "line-height", "border-width", "border-spacing", "text-indent"]
+KEYWORD_PROPS = {"overflow": ["auto", "AUTO", "Auto", " auto ", "scroll", "hidden", "visible", "auto auto"],
+                 "position": ["absolute", "relative", "fixed", "static", "ABSOLUTE", " absolute"],
+                 "display": ["none", "block", "inline", "table-cell"],
+                 "visibility": ["hidden", "visible", "collapse"],
+                 "direction": ["rtl", "ltr"], "float": ["left", "right", "none"], "clear": ["both"],
+                 "text-align": ["center", "right"], "page-break-before": ["always"], "border": ["1px solid", "0", "none"],
+                 "background-color": ["#eee", "transparent"], "color": ["red"]}
+# a pass trigger together with the parameter that the triggered pass reads
+TRIGGER_PARAM = {"overflow": "height", "position": "top"}
+
+
+def length(rng):
+    if rng.random() < 0.15:
+        return rng.choice(LENGTH_WORDS)
+    return rng.choice(NUMBERS) + rng.choice(["", "", "", " "]) + rng.choice(UNITS)
+
+
+def style(rng):
+    """a css declaration list: every trigger x every unit/number/keyword of the length it makes the cleaner read"""
+    decls = []
+    if rng.random() < 0.4:
+        t = rng.choice(sorted(TRIGGER_PARAM))
+        decls.append("%s:%s" % (t, KEYWORD_PROPS[t][0] if rng.random() < 0.7 else rng.choice(KEYWORD_PROPS[t])))
+        decls.append("%s:%s" % (TRIGGER_PARAM[t], length(rng)))
+    for _ in range(rng.randint(0 if decls else 1, 2)):
+        if rng.random() < 0.5:
+            decls.append("%s:%s" % (rng.choice(LENGTH_PROPS), length(rng)))
+        else:
+            k = rng.choice(sorted(KEYWORD_PROPS))
+            decls.append("%s:%s" % (k, rng.choice(KEYWORD_PROPS[k])))
+    rng.shuffle(decls)
+    sep = rng.choice([";", "; ", " ; ", ";"])
+    txt = sep.join(decls) + rng.choice(["", ";", ""])
+    return txt.upper() if rng.random() < 0.05 else txt
+
+
 def attrs(rng):
     a = []
     if rng.random() < 0.45:
-        a.append('style="%s"' % ";".join(rng.sample(STYLES, rng.randint(1, 2))))
+        a.append('style="%s"' % (";".join(rng.sample(STYLES, rng.randint(1, 2))) if rng.random() < 0.5 else style(rng)))
     if rng.random() < 0.3:
         a.append('class="%s"' % rng.choice(CLASSES))
     if rng.random() < 0.25:
@@ -272,3 +449,64 @@ SEEDS = [
     "* <ul><li>x</li></ul>\n",
     "<li>lonely</li>\n<td>cell</td>\n",
 ]
+# trigger x unit, exhaustively: each element kind that can carry the trigger, each unit of the length the pass reads
+SEEDS += ['<div style="overflow:auto; height:50%s">text<br/>more</div>\n\nafter\n' % u for u in UNITS + ["auto", "abc"]]
+SEEDS += ['{| style="overflow:auto;height:120%s"\n|-\n| a || b\n|-\n| c || d\n|}\n' % u for u in UNITS]
+SEEDS += ['<div style="position:absolute; top:5%s">x</div><span style="position:relative;left:1%s">y</span>\n' % (u, u) for u in UNITS]
+
+
+# ------------------------------------------------------------------ space 3 (deep; C05 only)
+DEEP_MAX = 330          # a third of CPython's default recursion limit: parser and passes (1-2 frames per level) cope, deepcopy does not
+CHAIN_TAGS = ["span", "b", "i", "u", "small", "big", "sub", "sup", "s", "em", "strong", "font", "cite", "var", "tt", "abbr", "del",
+              "ins", "div", "center", "blockquote"]
+# (forbidden ancestor open, close, offenders) per entry of TreeCleaner.forbidden_parents, plus the row-copying table passes
+OFFENDERS_PRE = ["[[Image:%s.png]]", "[[File:%s.jpg|thumb|cap]]", "<center>%s</center>", "<blockquote>%s</blockquote>",
+                 "<ul><li>%s</li></ul>", "<source>%s</source>", "<gallery>\nFile:%s.jpg\n</gallery>", "<p>%s</p>"]
+DEEP_CONTEXTS = [
+    ("<code>", "</code>\n", ["<pre>%s</pre>"]),
+    (" ", "\n", OFFENDERS_PRE),
+    ("\n: ", "\n", ["<table><tr><td>%s</td></tr></table>", "<gallery>\nFile:%s.jpg\n</gallery>"]),
+    ("\n; ", "\n", ["<table><tr><td>%s</td></tr></table>", "<gallery>\nFile:%s.jpg\n</gallery>"]),
+    ("<b>", "</b>\n", ["<source>%s</source>"]),
+    ("<i><u>", "</u></i>\n", ["<source>%s</source>"]),
+    ("<p>", "</p>\n", ["<dl><dd>%s</dd></dl>", "\n; %s : d\n"]),
+    ("{|\n|-\n| ", "\n|\n* g\n|}\n", ["\n* %s\n* b\n* c\n* d\n* e\n* f\n"]),                    # split_table_lists copies the row
+    ("{|\n|-\n| l\n| ", "\n|-\n| x\n| y\n|}\n", ["\n\n" + " ".join("big%d" % i for i in range(200)) + " %s\n"]),   # split_big_table_cells
+]
+
+
+def chain(rng, depth, inner):
+    if rng.random() < 0.6:
+        tags = [rng.choice(CHAIN_TAGS[:18])] * depth
+    else:
+        tags = [rng.choice(CHAIN_TAGS) for _ in range(depth)]
+    return "".join("<%s>" % t for t in tags) + inner + "".join("</%s>" % t for t in reversed(tags))
+
+
+def deep(rng):
+    """one forbidden-nesting context (or row-copying table, or any adversarial document) in which one fragment is wrapped
+    into a chain of 41..DEEP_MAX nested tags; the chain is a sibling of the offender, or wraps the offender itself"""
+    W = Words()
+    depth = rng.randint(41, DEEP_MAX)
+    if rng.random() < 0.75:
+        op, cl, offs = rng.choice(DEEP_CONTEXTS)
+        off = rng.choice(offs) % W()
+        k = rng.random()
+        if k < 0.55:
+            body = rng.choice([W() + " ", ""]) + chain(rng, depth, W()) + " " + off + rng.choice(["", " " + W()])
+        elif k < 0.75:
+            body = W() + " " + off + " " + chain(rng, depth, W())
+        elif k < 0.9:
+            body = W() + " " + chain(rng, depth, off) + " " + W()
+        else:
+            body = chain(rng, depth // 2, W()) + " " + off + " " + W() + " " + off + chain(rng, depth, W())
+        text = op + body + cl
+        if rng.random() < 0.3:
+            text = frag(rng, W, 2) + "\n" + text + frag(rng, W, 2)
+        return text
+    text = adversarial(rng)
+    words = list(re.finditer(r"\bw\d+\b", text))
+    if not words:
+        return chain(rng, depth, text)
+    x = rng.choice(words)
+    return text[:x.start()] + chain(rng, depth, x.group(0)) + text[x.end():]
